@@ -5,6 +5,7 @@ import (
 	"context"
 	"encoding/binary"
 	"fmt"
+	"time"
 
 	"github.com/evstack/ev-node/internal/zzsym"
 	"github.com/evstack/ev-node/types"
@@ -176,4 +177,73 @@ func ZZ_C07_restart() {
 		zzsym.Assert(m.GetDAIncludedHeight() == 0, "fresh-node-reports-zero")
 	}
 	zzsym.Reach("restarted")
+}
+
+// ZZ_C07_after_submission: the marks are not assumed, they are produced by the
+// real header submission: 2 blocks (empty, or their data already marked) above
+// the DA-included height D are submitted with one scripted DA answer (accept
+// all, accept a prefix, or a failure) after which the DA layer is down; then
+// the includer wakes up.  Every height it reports has its header blob among
+// the blobs the DA layer really accepted, at the DA height recorded for it.
+func ZZ_C07_after_submission() {
+	zzsym.FreezeClock()
+	const D = uint64(7)
+	e := zzNewEnv(1)
+	ne := []bool{zzsym.Bool("nonempty"), zzsym.Bool("nonempty")}
+	e.zzChain(D, 2, ne)
+	H := D + 2
+	da := &zzDA{height: 20}
+	e.da = da
+	m := e.zzManager(types.State{ChainID: e.chainID, InitialHeight: 1, LastBlockHeight: H})
+	m.da = da
+	m.daIncludedHeight.Store(D)
+	e.store.meta["d"] = zzLE(D)
+	m.pendingHeaders.base.lastHeight.Store(D)
+	e.store.meta["last-submitted-header-height"] = zzLE(D)
+	// the data of non-empty blocks is already on the DA layer and marked
+	for i := 0; i < 2; i++ {
+		if ne[i] {
+			m.dataCache.SetDAIncluded(e.store.blocks[D+uint64(i)+1].data.DACommitment().String(), 19)
+		}
+	}
+	zzsym.Assume(!(ne[0] && ne[1] && bytes.Equal(e.store.blocks[D+1].data.Txs[0], e.store.blocks[D+2].data.Txs[0])))
+	// first answer arbitrary, then the DA layer is down for the rest of the call
+	a0 := zzDAAny("a0.", 2)
+	zzsym.Assume(a0.kind != 8) // (an acceptance whose acknowledgement is lost is unknown to the node: C06)
+	da.script = []zzDAAnswer{a0}
+	// short waits, so that a native replay of the retry budget takes no time
+	m.config.DA.BlockTime.Duration = time.Millisecond
+	m.config.DA.MempoolTTL = 1
+	for i := 0; i < 40; i++ {
+		da.script = append(da.script, zzDAAnswer{kind: 6})
+	}
+	ctx, cancel := context.WithCancel(context.Background())
+	pend, err := m.pendingHeaders.getPendingHeaders(ctx)
+	zzsym.Assert(err == nil && len(pend) == 2, "pending-is-watermark-to-height")
+	_ = m.submitHeadersToDA(ctx, pend)
+	errCh := make(chan error, 4)
+	m.sendNonBlockingSignalToDAIncluderCh()
+	zzsym.OnIdle(cancel)
+	m.DAIncluderLoop(ctx, errCh)
+	cancel()
+	D2 := m.GetDAIncludedHeight()
+	zzsym.ObserveU64("advanced", D2-D)
+	zzsym.Assert(D2 >= D && D2 <= H, "da-included-height-monotone")
+	for h := D + 1; h <= D2; h++ {
+		at, ok := zzHeaderAccepted(e, da, h)
+		zzsym.Assert(ok, "reported-height-has-header-on-da")
+		hv, hok := e.store.meta[fmt.Sprintf("rhb/%d/h", h)]
+		zzsym.Assert(hok && len(hv) == 8 && ok && binary.LittleEndian.Uint64(hv) == at, "recorded-header-da-height-is-where-the-blob-is")
+	}
+	// and everything the DA layer accepted as a prefix is reported
+	want := D
+	for h := D + 1; h <= H; h++ {
+		if _, ok := zzHeaderAccepted(e, da, h); ok {
+			want = h
+		} else {
+			break
+		}
+	}
+	zzsym.Assert(D2 >= want, "included-prefix-is-reported-after-one-wakeup")
+	zzsym.Reach("after-submission")
 }
